@@ -149,6 +149,9 @@ package keeper
 //@   requires #clock: abs(blocktime() - auction.StartTime) < pow2(62) && abs(el) < pow2(62)
 //@   requires #ranges: dur < pow2(40) && top > 0 && top < pow10(40) && disc >= 0 && disc < ONE && abs(tau) < pow2(62) && tau != 0
 //@   requires #fee-book: forall a, b :: ite(K("collector").GetNetFeeCollectedData(ctx, a, b).1, K("collector").GetNetFeeCollectedData(ctx, a, b).0.NetFeesCollected, 0) >= 0
+//@   requires #bidders-are-not-module-accounts: forall id :: addr(k.GetUserBid(ctx, id).0.BidderAddress) != modaddr("auctionsV2") && addr(k.GetUserBid(ctx, id).0.BidderAddress) != modaddr("collectorV1") && addr(k.GetUserBid(ctx, id).0.BidderAddress) != modaddr("tokenmint")
+//@   requires #english-lot: auction.DebtToken.Denom != auction.CollateralToken.Denom && auction.DebtToken.Amount >= 0 && auction.CollateralToken.Amount >= 0
+//@   requires #external-initiator: forall a, v :: validaddr(K("liquidationsV2").GetLockedVault(ctx, a, v).0.ExternalKeeperAddress) ==> addr(K("liquidationsV2").GetLockedVault(ctx, a, v).0.ExternalKeeperAddress) != modaddr("auctionsV2") && (forall id :: addr(K("liquidationsV2").GetLockedVault(ctx, a, v).0.ExternalKeeperAddress) != addr(k.GetUserBid(ctx, id).0.BidderAddress))
 //@   ensures #c10-step-runs: result == nil || result != nil
 
 //@ pred mapColl(vk, ctx, app, ep): vk.GetAppExtendedPairVaultMappingData(ctx, app, ep).0.CollateralLockedAmount
@@ -218,6 +221,8 @@ package keeper
 // auction custody in full, and the auction is removed.
 //@ func (k Keeper) CloseEnglishAuction
 //@   property C11
+//@   modular
+//@   modifies auctionsV2, collector, tokenmint, liquidationsV2, bank
 //@   let A = englishAuction
 //@   let lv = K("liquidationsV2").GetLockedVault(ctx, englishAuction.AppId, englishAuction.LockedVaultId).0
 //@   let w = k.GetUserBid(ctx, englishAuction.ActiveBiddingId).0.BidderAddress
